@@ -12,6 +12,13 @@ A case is a scripted history for ONE master/slave pair:
                — what a consumer does THROUGH THE MASTER's public API functions
          ['down'] ['await_offline'] ['up'] ['await_online']          — network switch / wait for the master to notice
          ['check']                                                   — observe (GET /ports, GET /devices on the master)
+         ['rfail', pid]                                              — the next PATCH the device gets for that port answers 502
+         ['when', 'listen'|'ports'|'device', delay, [steps…]]        — wait until the device next receives that request,
+                                                                       then `delay`, then the nested (device-side) steps:
+                                                                       changes timed INTO the reconnect / sync window
+  mode 'push': the master neither listens nor polls; the device POSTs its events to /devices/<name>/events (real
+  post_slave_device_events API function, device-origin token) with latency `push_latency`
+  ports may carry 'slow': 'later'|'never' (value writes answered 202 Accepted and applied later / never)
 
 `run_real` executes it on the real hub against the simulated slave and returns the observations plus the ordered trace
 of everything that reached the master. `run_model` replays that trace, message by message, on the Lean model (driver)
@@ -24,7 +31,7 @@ import asyncio
 import json
 
 from harness.core import Failure
-from harness.simslave_c12 import SimSlave
+from harness.simslave_c12 import SimSlave, _call_at_distinct_instant
 
 MASTER_OWNED = {'id', 'tag', 'online', 'last_sync', 'expires', 'provisioning', 'value', 'pending_value'}
 NAME = 's1'
@@ -78,6 +85,16 @@ class Interner:
         return None
 
 
+def flat_steps(case):
+    out = []
+    for st in case['steps']:
+        if st[0] == 'when':
+            out.extend(st[3])
+        else:
+            out.append(st)
+    return out
+
+
 def dev_clean(d: dict) -> dict:
     return {k: v for k, v in d.items() if k not in ('uptime', 'date')}
 
@@ -112,15 +129,27 @@ async def run_real(hub, case) -> Real:
             extra = {'color': p['custom']}
         sim.add_port(p['id'], p['type'], p['value'], p.get('writable', True), p.get('enabled', True), extra=extra,
                      definitions=defs, event=False)
+        if p.get('slow'):
+            sim.slow[p['id']] = p['slow']
     mode = case['mode']
+    push_tasks = []
     try:
         r.add_result = await hub.add_slave(sim, mode, case.get('poll', 2))
         if r.add_result[0] != 'ok':
             return r
         await asyncio.sleep(4 + 2 * case.get('poll', 2) * (mode == 'poll'))
         r.trace.append(('started',))
-        window = None
-        for idx, st in enumerate(case['steps']):
+        if mode == 'push':
+            def pusher(ev):
+                def start():
+                    if not sim.reachable:
+                        return                     # the device cannot reach the master either: the event is lost
+                    r.trace.append(('pushed', round(hub.loop.time(), 6), ev))
+                    push_tasks.append(asyncio.ensure_future(hub.post_event(NAME, ev)))
+                _call_at_distinct_instant(hub.loop, case.get('push_latency', sim.latency), start)
+            sim.pusher = pusher
+
+        async def remote_step(st):
             op = st[0]
             if op == 'wait':
                 await asyncio.sleep(st[1])
@@ -137,6 +166,24 @@ async def run_real(hub, case) -> Real:
                 sim.remove_port(st[1])
             elif op == 'rdev':
                 sim.set_device_attrs({st[1]: st[2]})
+            elif op == 'rfail':
+                sim.fail_next.add(st[1])
+
+        window = None
+        for idx, st in enumerate(case['steps']):
+            op = st[0]
+            if op in ('wait', 'rvalue', 'rattr', 'radd', 'rremove', 'rdev', 'rfail'):
+                await remote_step(st)
+            elif op == 'when':
+                want = {'listen': '/listen', 'ports': '/ports', 'device': '/device'}[st[1]]
+                n0 = len(sim.log)
+                for _ in range(12000):
+                    if any(e['method'] == 'GET' and e['path'].rstrip('/') == want for e in sim.log[n0:]):
+                        break
+                    await asyncio.sleep(0.005)
+                await asyncio.sleep(st[2])
+                for sub in st[3]:
+                    await remote_step(sub)
             elif op in ('mvalue', 'mattr', 'mdev', 'mwebhooks', 'mreverse'):
                 n0 = len(sim.log)
                 r.trace.append(('op-begin', idx, st))
@@ -192,7 +239,8 @@ async def run_real(hub, case) -> Real:
                     await asyncio.sleep(0.5)
                 await asyncio.sleep(1.5 + 6 * sim.latency + 2 * case.get('poll', 2) * (mode == 'poll'))
             elif op == 'check':
-                await asyncio.sleep(1.0 + 2 * case.get('poll', 2) * (mode == 'poll'))
+                await asyncio.sleep(1.0 + 2 * case.get('poll', 2) * (mode == 'poll') +
+                                    (3.0 + 10 * sim.latency) * (mode == 'push'))
                 obs = await observe(hub, sim)
                 obs['idx'] = idx
                 r.checks.append(obs)
@@ -203,6 +251,10 @@ async def run_real(hub, case) -> Real:
         r.sim_final = {'ports': {pid: sim.port_json(pid) for pid in sim.ports}, 'device': dev_clean(sim.device_json()),
                        'webhooks': dict(sim.webhooks), 'reverse': dict(sim.reverse)}
         r.overflowed = sim.overflowed
+        sim.pusher = None
+        for t_ in push_tasks:
+            if not t_.done():
+                t_.cancel()
         hub.captured = []
         sim.trace = []
         try:
@@ -353,7 +405,7 @@ def run_model(case, real: Real, driver, fix=(1, 1)):
     def finish_window(dev, ports, kind):
         nonlocal window, model_online, fail
         refused = sorted({it.port(p.split('/')[2]) for (m, p, b, c) in window['pushes']
-                          if p.endswith('/value') and c >= 400})
+                          if p.endswith('/value') and c not in (200, 204)})
         rf = ','.join(map(str, refused)) if refused else '-'
         devs = '?' if dev is None else it.attrs(dev_clean(dev))
         if ports is not None:
@@ -381,11 +433,14 @@ def run_model(case, real: Real, driver, fix=(1, 1)):
         if any(q[0] != 'GET' for q in real_reqs):
             tags.add('reconnect-with-pushes')
         model_online = ports is not None and not (kind == 'online' and dev is None)
+        if mode == 'push':
+            ask('offline')                 # a slave that is neither listened to nor polled is never "online"
+            model_online = False
         window = None
 
     consumed = set()
     unstable = {it.port(p['id']) for p in case['ports'] if not p.get('enabled', True)}
-    unstable |= {it.port(st[1]) for st in case['steps']
+    unstable |= {it.port(st[1]) for st in flat_steps(case)
                  if st[0] == 'rremove' or (st[0] in ('rattr', 'mattr') and st[2] == 'enabled')}
 
     def take_value_response(pos, rid):
@@ -426,9 +481,13 @@ def run_model(case, real: Real, driver, fix=(1, 1)):
                     for pj in resp:
                         note_names(pj)
                     flags = init.get('dev', {}).get('flags', [])
-                    ask(f'begin {mode} {fix[0]} {fix[1]} {int("webhooks" in flags)} {int("reverse" in flags)} '
+                    mmode = 'poll' if mode == 'poll' else 'listen'
+                    ask(f'begin {mmode} {fix[0]} {fix[1]} {int("webhooks" in flags)} {int("reverse" in flags)} '
                         f'{it.attrs(dev_clean(init.get("dev", {})))} {it.attrs(init.get("wh", {}))} '
-                        f'{it.attrs(init.get("rv", {}))} {it.portlist(resp, with_value=(mode == "listen"))}')
+                        f'{it.attrs(init.get("rv", {}))} {it.portlist(resp, with_value=(mode != "poll"))}')
+                    if mode == 'push':
+                        ask('offline')
+                        model_online = False
                     started = True
                 return
             # ---- user edits travelling to the slave while the master is online
@@ -447,7 +506,9 @@ def run_model(case, real: Real, driver, fix=(1, 1)):
                 if ok:
                     ask(f'value-resp {it.port(path.split("/")[2])} {it.pval(resp)}')
                 return
-            if mode == 'listen':
+            if mode == 'push' and window is None:
+                window = {'t': t, 'reqs': [], 'pushes': [], 'dev': None}     # a provisioning & update run
+            if mode in ('listen', 'push'):
                 if window is not None:
                     window['reqs'].append((method, path, body, code))
                     if method != 'GET':
@@ -497,6 +558,17 @@ def run_model(case, real: Real, driver, fix=(1, 1)):
                         finish_window(window['dev'], resp if ok else None, 'poll')
         elif tag == 'started':
             pass
+        elif tag == 'pushed':
+            ev = it.event(e[2])
+            if e[2]['type'] in ('port-update', 'port-add'):
+                note_names(e[2]['params'])
+            tags.add('ev-' + e[2]['type'])
+            if ev:
+                rep = ask('events ' + ev)
+                for tok in rep.split()[2:]:
+                    if tok.startswith('GV:'):
+                        k = int(tok[3:])
+                        take_value_response(pos, next(r_ for r_, n_ in it.ports.items() if n_ == k))
         elif tag == 'op-begin':
             in_op = e[2]
         elif tag == 'op-end':
@@ -749,10 +821,10 @@ def oracle_c12(case, real: Real):
     tags = set()
     for ci, c in enumerate(real.checks):
         d = c['device']
-        if d is None or not d['online'] or not c['reachable'] or d['provisioning']:
+        if d is None or not c['reachable'] or (case['mode'] != 'push' and not d['online']):
             tags.add('check-skipped-offline')
             continue
-        if any(pj.get('provisioning') for pj in c['master'].values()):
+        if case['mode'] == 'push' and (d['provisioning'] or any(pj.get('provisioning') for pj in c['master'].values())):
             continue
         tags.add('mirror-checked')
         if set(c['master']) != set(c['slave']):
@@ -775,11 +847,11 @@ def oracle_c12(case, real: Real):
                                f'{sv!r}', where='value'), tags
     # value series (listen mode, restricted regime)
     ops = [s[0] for s in case['steps']]
-    toggles = any(s[0] == 'rattr' and s[2] == 'enabled' for s in case['steps']) or \
+    toggles = any(s[0] == 'rattr' and s[2] == 'enabled' for s in flat_steps(case)) or \
         any(s[0] == 'mattr' and s[2] == 'enabled' for s in case['steps']) or \
         any(not p.get('enabled', True) for p in case['ports'])
     if case['mode'] == 'listen' and real.checks and not real.overflowed and not toggles and \
-            not any(o in ('down', 'mvalue', 'rremove', 'radd') for o in ops):
+            not any(o in ('down', 'mvalue', 'rremove', 'radd', 'when', 'rfail') for o in ops):
         last_t = real.checks[-1]['t']
         series = {}
         for e in real.trace:
